@@ -297,6 +297,9 @@ func visitInstr(fr *frame, instr ssa.Instruction) continuation {
 		fr.runDefers()
 
 	case *ssa.Panic:
+		if debugStacks {
+			fmt.Fprintf(os.Stderr, "target panic: %s\n%s", fr.i.panicString(targetPanic{fr.get(instr.X)}), fr.i.targetStack())
+		}
 		panic(targetPanic{fr.get(instr.X)})
 
 	case *ssa.Send:
@@ -414,7 +417,7 @@ func visitInstr(fr *frame, instr ssa.Instruction) continuation {
 		}
 
 	case *ssa.TypeAssert:
-		fr.set(instr, typeAssert(instr, fr.get(instr.X).(iface)))
+		fr.set(instr, typeAssert(fr, instr, fr.get(instr.X).(iface)))
 
 	case *ssa.MakeClosure:
 		var bindings []value
